@@ -2,10 +2,10 @@
 # Each harness is a Go function in /verif/harness (package rapid) executed
 # symbolically by gosym against /repo's working tree.
 
-def H(name, bounds="", reach=(), native=True, thorough_only=False, quick=None, thorough=None, nodiff=False, opts=None, search=None):
+def H(name, bounds="", reach=(), native=True, thorough_only=False, quick=None, thorough=None, nodiff=False, opts=None, search=None, must_reach=None, unreach_job=None):
     return {"name": name, "bounds": bounds, "reach": list(reach), "native": native,
             "thorough_only": thorough_only, "quick": quick or {}, "thorough": thorough or {},
-            "nodiff": nodiff, "opts": opts or {}, "search": search or []}
+            "nodiff": nodiff, "opts": opts or {}, "search": search or [], "must_reach": must_reach or [], "unreach_job": unreach_job}
 
 Q = {"budget": "150s", "timeout": 400}
 T = {"budget": "25m", "timeout": 3000}
@@ -28,7 +28,25 @@ PERSIST_ASSUME = ENGINE_ASSUME + ["package os replaced by an in-memory file syst
                                  "strings are concrete: file contents and test names are representatives chosen by case split, not arbitrary bytes",
                                  "jsf64 with a symbolic seed abstracted to an arbitrary word sequence determined by the seed expression"]
 
+def _band_job(label):
+    # "witness-56" -> native sweep of the 56-bit band
+    return {"harness": "H_C18_nativeBand", "vals": {"B": int(label.split("-")[1])}}
+
+WITNESSES = ["witness-%d" % b for b in range(65)]
+
 PROPS = {
+    "C18": {
+        "level": "model_checking",
+        "harnesses": [
+            H("H_C18_reachUint", "every span bit length B in 0..64: the solver synthesises a bias word that makes the real genUintNBiased draw at full width (witness search), then for ALL min, all spans of that bit length and ALL values in range the real Uint64Range returns the value on the bitstream [witness, value-min] (universal check)", must_reach=WITNESSES, unreach_job=_band_job, quick=Q, thorough=T, nodiff=True),
+            H("H_C18_reachInt", "the same through Int64Range: all min<=v<=max (64-bit symbolic), sign coin 0 / all-ones, magnitude span of bit length B", must_reach=WITNESSES, unreach_job=_band_job, reach=["negative", "non-negative"], quick=Q, thorough=T, nodiff=True),
+            H("H_C18_edges", "forcing regions for Uint64Range, all min and all spans of every bit length 1..64: bias word below Tlo (and an even data word) forces min, bias word above Thi forces max; both regions have measure >= 2^-8 (computed in the harness from the documented bias schedule, slack 2^30)", reach=["min-forced", "max-forced"], quick=Q, thorough=T),
+            H("H_C18_fresh", "baseSeed() without -rapid.seed is the environment's entropy (two calls can differ, not a constant); seeds of test cases i<j<40 of one run differ for every base seed", reach=["two-calls-can-differ", "not-a-constant", "distinct"], quick=Q, thorough=T, nodiff=True),
+            H("H_C18_nativeBand", "native-only confirmation sweep (400000 draws), no-op under gosym", quick=Q, thorough=T, nodiff=True),
+        ],
+        "assumptions": ENGINE_ASSUME + ["genGeom summarised as a monotone step function (see C03)", "probability statements are reduced to a solver-proved forcing region plus its exactly computed measure under uniform words",
+                                        "float ranges and the rune/collection generators are outside the reachability claim", "hash/maphash is the environment: its value is an unconstrained symbol"],
+    },
     "C01": {
         "level": "model_checking",
         "harnesses": [
@@ -131,6 +149,18 @@ PROPS = {
         "harnesses": [
             H("H_C03_uintRange", "min,max: any uint64 with min<=max (span bit length: quick 16 classes, thorough all 65); bias: both; buffer stream of L<=2 (quick) / L<=3 (thorough) symbolic words",
               reach=["returned", "overrun"], quick=Q, thorough=T),
+            H("H_C03_int64Range", "Int64Range(min,max), any int64 min<=max (magnitudes of the ends: quick bit lengths {0,1,9,63,64}, thorough all), stream of <=3/4 symbolic words", reach=["value", "invalid"], quick=Q, thorough=T),
+            H("H_C03_int8Range", "Int8Range over all int8 bounds", reach=["value", "invalid"], quick=Q, thorough=T),
+            H("H_C03_uint8Range", "Uint8Range over all uint8 bounds", reach=["value", "invalid"], quick=Q, thorough=T),
+            H("H_C03_sliceN", "SliceOfN(Bool(), minLen, maxLen) with limits in -1..3, stream of 7/9 words", reach=["value", "invalid"], quick=Q, thorough=T),
+            H("H_C03_sliceDistinct", "SliceOfNDistinct(Bool(), ..) limits in -1..3 (incl. unsatisfiable minimum), 8/11 words", reach=["value", "invalid"], quick=Q, thorough=T),
+            H("H_C03_mapN", "MapOfN(Bool(),Bool(),..) limits in -1..3, 9/12 words", reach=["value", "invalid"], quick=Q, thorough=T),
+            H("H_C03_mapValues", "MapOfNValues(Bool(),.., not) limits in -1..3, 8/11 words", reach=["value", "invalid"], quick=Q, thorough=T),
+            H("H_C03_stringN", "StringOfN over a rune generator yielding 1..4-byte runes and an unencodable surrogate; minRunes,maxRunes in -1..2, maxLen in -1..5; 6/9 words", reach=["value", "invalid"], quick=Q, thorough=T),
+            H("H_C03_permutation", "Permutation of 0..4 elements, 8/10 words; input unmodified", reach=["value", "invalid"], quick=Q, thorough=T),
+            H("H_C03_sampledOneOfPtr", "SampledFrom(1..3 values), OneOf(Just,Just), Ptr(Bool(),false)", reach=["value", "invalid"], quick=Q, thorough=T),
+            H("H_C03_filter", "Bool().Filter(id): predicate holds, at most 5 tries", reach=["value", "invalid"], quick=Q, thorough=T),
+            H("H_C03_ufloat64", "genUfloatRange on any non-negative non-NaN float64 bounds min<=max (bit patterns symbolic; quick: exponents adjacent or at the denormal/infinite end), 7/9 words; result compared on bit patterns", reach=["value", "invalid"], thorough_only=True, thorough=T),
         ],
         "assumptions": [
             "genGeom's float expression uint64(Log1p(-f)/Log1p(-p)) is summarised as a non-decreasing step function of the 53-bit draw, computed by native bisection of the current source's expression and checked for monotonicity at every threshold and at 2048 sampled pairs",
